@@ -728,8 +728,9 @@ int disasm_68000(
     return len;
   }
 
+  // An unknown opcode still takes up one 16 bit word.
   strcpy(instruction, "???");
-  return -1;
+  return 2;
 }
 
 void list_output_68000(
